@@ -117,30 +117,24 @@ Proof. induction a as [|o a IH]; [reflexivity|]. cbn [app]. rewrite !first_some_
 Lemma find_filter {A} (f : A -> bool) l : find f l = match filter f l with x :: _ => Some x | [] => None end.
 Proof. induction l as [|a l IH]; [reflexivity|]. cbn [find filter]. destruct (f a); auto. Qed.
 
-(* agreement with the SPEC's window class, given the divisor of the last rule.  `hdr` is what the code adds to
-   the MSS there (IPv4: IHL in words, IPv6: 40); outside K7 it makes no difference. *)
-Definition k7_cond (v : ip_version) (w m hdr : N) (ts : bool) : bool :=
-  negb (w =? 0) && (100 <=? m)
-  && match first_some (map (multiple_of w) (mss_divisors m ts)) with Some _ => false | None => true end
-  && match filter (fun d => w mod d =? 0) [4096; 2048; 1024; 512; 256] with _ :: _ => false | [] => true end
-  && match first_some (map (multiple_of w) ([1500; 1500 - min_headers v] ++ (if ts then [1500 - min_headers v - 12] else [])))
-     with Some _ => false | None => true end
-  && negb (option_eqb N.eqb (multiple_of w (sat16 (m + hdr))) (multiple_of w (m + min_headers v))).
-
-Lemma option_eqb_N_eq a b : option_eqb N.eqb a b = true -> a = b.
-Proof. destruct a, b; cbn; try discriminate; auto. intros H. f_equal. lia. Qed.
-
-Lemma window_spec v w m hdr ts :
-  v <> IpAny -> 0 < hdr -> k7_cond v w m hdr ts = false ->
-  detect_win_multiplicator w m hdr ts v = spec_window v w (Some m) ts.
+(* the last rule: MSS + minimal headers, no such MTU when the sum does not fit 16 bits (checked_add) *)
+Lemma multiple_of_big w d : 0 < w -> w < d -> multiple_of w d = None.
 Proof.
-  intros Hv Hh HK. unfold detect_win_multiplicator, spec_window.
+  intros H0 H. unfold multiple_of. replace (d =? 0) with false by lia.
+  rewrite N.mod_small by lia. replace (w =? 0) with false by lia. reflexivity.
+Qed.
+
+(* agreement with the SPEC's window class (priority MSS multiple > modulus > MTU multiple > raw) for every
+   16-bit window and every MSS, with the header size visit_tcp hands over (40 / 60 bytes) *)
+Lemma window_spec v w m ts :
+  v <> IpAny -> w < 65536 ->
+  detect_win_multiplicator w m (min_total_header v) ts v = spec_window v w (Some m) ts.
+Proof.
+  intros Hv Hw. unfold detect_win_multiplicator, spec_window.
   destruct ((w =? 0) || (m <? 100)) eqn:E0; [reflexivity|].
   assert (Hm : 0 <? m = true) by lia. rewrite Hm.
   assert (H12 : 12 <? m = true) by lia. rewrite H12, andb_true_r.
-  assert (Hh' : 0 <? hdr = true) by lia. rewrite Hh'.
-  unfold k7_cond in HK.
-  replace (negb (w =? 0) && (100 <=? m)) with true in HK by lia. cbn [andb] in HK.
+  assert (Hh' : 0 <? min_total_header v = true) by (destruct v; [reflexivity | reflexivity | congruence]). rewrite Hh'.
   unfold mss_divisors in *. unfold sat_sub.
   (* rule 1 *)
   assert (R1 : or_else (check_div w m) (if ts then check_div w (m - 12) else None)
@@ -150,10 +144,8 @@ Proof.
     [destruct (multiple_of w (m - 12)); reflexivity | reflexivity]. }
   rewrite R1. clear R1.
   destruct (first_some (map (multiple_of w) (m :: (if ts then [m - 12] else [])))) eqn:F1; [reflexivity|].
-  cbn [andb] in HK.
   rewrite find_filter.
   destruct (filter (fun d => w mod d =? 0) [4096; 2048; 1024; 512; 256]) eqn:F2; [|reflexivity].
-  cbn [andb] in HK.
   unfold mtu_divisors. rewrite app_assoc, map_app, first_some_app.
   (* rule 3 *)
   assert (R3 : or_else (check_div w 1500)
@@ -171,9 +163,13 @@ Proof.
   rewrite R3. clear R3.
   destruct (first_some (map (multiple_of w) ([1500; 1500 - min_headers v] ++ (if ts then [1500 - min_headers v - 12] else [])))) eqn:F3;
     [reflexivity|].
-  cbn [andb] in HK. apply negb_false_iff in HK. apply option_eqb_N_eq in HK.
+  (* rule 4 *)
   cbn [map]. rewrite first_some_cons. cbn [first_some fold_right].
-  rewrite check_div_multiple, HK. destruct (multiple_of w (m + min_headers v)); reflexivity.
+  assert (HV : min_total_header v = min_headers v) by (destruct v; [reflexivity | reflexivity | congruence]).
+  rewrite HV.
+  destruct (m + min_headers v <=? 65535) eqn:FIT.
+  - rewrite check_div_multiple. destruct (multiple_of w (m + min_headers v)); reflexivity.
+  - rewrite multiple_of_big by lia. reflexivity.
 Qed.
 
 Lemma window_spec_nomss v w hdr ts : detect_win_multiplicator w 0 hdr ts v = spec_window v w None ts.
@@ -202,7 +198,7 @@ Proof. destruct b; vm_compute; intros; try reflexivity; discriminate. Qed.
 Definition code_mtu_divisors (v : ip_version) (mss hdr : N) (ts : bool) : list N :=
   [1500]
   ++ match v with IpV4 => 1460 :: (if ts then [1448] else []) | IpV6 => 1440 :: (if ts then [1428] else []) | IpAny => [] end
-  ++ [if 0 <? hdr then sat16 (mss + hdr) else sat16 (mss + min_headers v)].
+  ++ [if 0 <? hdr then mss + hdr else sat16 (mss + min_headers v)].
 Lemma window_mtu_sound w mss hdr ts v k :
   detect_win_multiplicator w mss hdr ts v = WMtu k ->
   exists d, In d (code_mtu_divisors v mss hdr ts) /\ w = k * d /\ k <= 255 /\ d <> 0.
@@ -222,9 +218,11 @@ Proof.
     + destruct (check_div w (1500 - 40 - 12)) eqn:C2.
       { intros H; inversion H; subst. apply check_div_some in C2. exists 1448. cbn [In app]. intuition lia. }
       destruct (0 <? hdr); cbn [min_headers];
+      try (match goal with |- context [mss + hdr <=? 65535] => destruct (mss + hdr <=? 65535); [|discriminate] end);
       match goal with |- context [check_div w ?d] => destruct (check_div w d) eqn:C3 end; try discriminate;
       intros H; inversion H; subst; apply check_div_some in C3; eexists; (split; [cbn [In app]; right; right; right; left; reflexivity | intuition lia]).
     + destruct (0 <? hdr); cbn [min_headers];
+      try (match goal with |- context [mss + hdr <=? 65535] => destruct (mss + hdr <=? 65535); [|discriminate] end);
       match goal with |- context [check_div w ?d] => destruct (check_div w d) eqn:C3 end; try discriminate;
       intros H; inversion H; subst; apply check_div_some in C3; eexists; (split; [cbn [In app]; right; right; left; reflexivity | intuition lia]).
   - destruct (check_div w (1500 - 60)) eqn:C1.
@@ -233,12 +231,15 @@ Proof.
     + destruct (check_div w (1500 - 60 - 12)) eqn:C2.
       { intros H; inversion H; subst. apply check_div_some in C2. exists 1428. cbn [In app]. intuition lia. }
       destruct (0 <? hdr); cbn [min_headers];
+      try (match goal with |- context [mss + hdr <=? 65535] => destruct (mss + hdr <=? 65535); [|discriminate] end);
       match goal with |- context [check_div w ?d] => destruct (check_div w d) eqn:C3 end; try discriminate;
       intros H; inversion H; subst; apply check_div_some in C3; eexists; (split; [cbn [In app]; right; right; right; left; reflexivity | intuition lia]).
     + destruct (0 <? hdr); cbn [min_headers];
+      try (match goal with |- context [mss + hdr <=? 65535] => destruct (mss + hdr <=? 65535); [|discriminate] end);
       match goal with |- context [check_div w ?d] => destruct (check_div w d) eqn:C3 end; try discriminate;
       intros H; inversion H; subst; apply check_div_some in C3; eexists; (split; [cbn [In app]; right; right; left; reflexivity | intuition lia]).
   - destruct (0 <? hdr); cbn [min_headers app]; try discriminate.
+    destruct (mss + hdr <=? 65535); [|discriminate].
     match goal with |- context [check_div w ?d] => destruct (check_div w d) eqn:C3 end; try discriminate.
     intros H; inversion H; subst; apply check_div_some in C3; eexists; (split; [cbn [In app]; right; left; reflexivity | intuition lia]).
 Qed.
